@@ -89,7 +89,7 @@ def h_subclass(u: int, tower: int, x: int, y: int) -> bool:
     """Class subsumption == Python's issubclass (+ numeric tower when enabled), for
     ``is_subclass`` and for the subtype relations on the corresponding instance types.
 
-    pre: 0 <= u <= 1 and 0 <= tower <= 1 and 0 <= x < 21 and 0 <= y < 21
+    pre: 0 <= u <= 1 and 0 <= tower <= 1 and 0 <= x < 23 and 0 <= y < 23
     post: _
     """
     u, tower = realize(u), realize(tower)  # pinned selectors
@@ -281,7 +281,7 @@ META = {
              "analysed by the real generate_test_cluster, with and without the numeric tower, for every type term of "
              "depth <= 2 decodable from the selector tuple (853 terms: Any, None, 18 classes, list/set/dict/tuple/union "
              "over 16 argument terms) the real TypeSystem satisfies: reflexivity and top of is_subtype/is_maybe_subtype; "
-             "subtype_distance(t,t)==0; is_subclass == issubclass (+ tower) on 21x21 analysed classes and the same for "
+             "subtype_distance(t,t)==0; is_subclass == issubclass (+ tower) on 23x23 analysed classes (incl. two nested classes with the same simple name) and the same for "
              "the instance types; is_subtype => is_maybe_subtype (and element-wise soundness of container subsumption, and "
              "widening of the right side by a union member) "
              "against every table term; transitivity through every "
@@ -305,7 +305,7 @@ META = {
                   "outside tracing)"],
     "bounds": {"universes": "quick: corpus/C25_universe.py; thorough: + corpus/C25_universe2.py",
                "term_depth": "<= 2", "argument_terms": 16, "top_level_atoms": "16 + 13", "terms": 853,
-               "classes_for_issubclass": 21, "pairs_for_distance_law": "quick n=5 (113 terms), thorough n=8 (245 terms)", "union_law": "a: 853 terms, b: 29 terms of depth<=1 (both orders), c: quick 113 / thorough 245 terms",
+               "classes_for_issubclass": 23, "pairs_for_distance_law": "quick n=5 (113 terms), thorough n=8 (245 terms)", "union_law": "a: 853 terms, b: 29 terms of depth<=1 (both orders), c: quick 113 / thorough 245 terms",
                "numeric_tower": "on and off"},
     "outside": ["class hierarchies from generated modules (two fixed universes instead)", "terms of depth > 2",
                 "unions with more than two items, tuples with more than two items",
